@@ -528,6 +528,13 @@ func init() {
 		if a.IsConst() && b.IsConst() {
 			return math.Mod(fpVal(a), fpVal(b))
 		}
+		if b.IsConst() && fpVal(b) == 1 {
+			// x mod 1 = x - trunc(x) exactly; a zero result keeps x's sign
+			r := FpSub(a, FpTrunc(a))
+			zero := fpConstOf(a.Sort, 0)
+			neg := And(FpEq(r, zero), FpLt(a, zero))
+			return mkScalar(Ite(neg, FpNeg(zero), r), types.Float64)
+		}
 		fr.i.ex.Assumption("math.Mod is an uninterpreted function fmod on symbolic operands")
 		return mkScalar(Fmod(a, b), types.Float64)
 	}
